@@ -53,15 +53,20 @@ pub fn main_threads(dispatch: Dispatch, args: &[String]) {
                     seed_shake(shake, tseed);
                     let mut out = String::new();
                     // each worker parses out of its own reused buffer (see main_seq)
-                    let mut buf = String::with_capacity(cases.iter().map(|c| c.input.len()).max().unwrap_or(0) + 8);
+                    let mut buf = String::with_capacity(cases.iter().map(|c| c.input.len()).max().unwrap_or(0) + 16);
+                    let mut nth = 0usize;
                     barrier.wait();
                     for i in p {
                         let c = &cases[i];
                         let mode = if c.modes & 2 != 0 { Mode::Rec } else { Mode::Noop };
+                        // a different offset inside the buffer for every parse (see main_seq)
+                        nth += 1;
+                        let off = (nth * 5 + t) % 8;
                         buf.clear();
+                        buf.push_str(&"########"[..off]);
                         buf.push_str(&c.input);
                         let t0 = base.elapsed().as_nanos();
-                        let ok = dispatch(c.gidx, &c.rule, mode, &buf, c.budget);
+                        let ok = dispatch(c.gidx, &c.rule, mode, &buf[off..], c.budget);
                         let t1 = base.elapsed().as_nanos();
                         let log = take_log();
                         out.push_str(&format!("B {} {} {} {} {} {}\n", c.id, mode.name(), i, t, t0, t1));
